@@ -288,22 +288,26 @@ func trimStack(st string) string {
 
 var staleG = map[string]bool{}
 var staleMu sync.Mutex
+var censusBuf []byte
 
 // census returns, for each goroutine not seen stranded before whose stack has
 // a frame in the library's datalog package, its first such frame.
 func census() []string {
-	buf := make([]byte, 1<<20)
-	for {
-		n := runtime.Stack(buf, true)
-		if n < len(buf) {
-			buf = buf[:n]
-			break
-		}
-		buf = make([]byte, 2*len(buf))
-	}
-	var out []string
 	staleMu.Lock()
 	defer staleMu.Unlock()
+	if censusBuf == nil {
+		censusBuf = make([]byte, 1<<18)
+	}
+	var buf []byte
+	for {
+		n := runtime.Stack(censusBuf, true)
+		if n < len(censusBuf) {
+			buf = censusBuf[:n]
+			break
+		}
+		censusBuf = make([]byte, 2*len(censusBuf))
+	}
+	var out []string
 	for _, g := range strings.Split(string(buf), "\n\n") {
 		if !strings.Contains(g, "biscuit-go/v2/datalog.") {
 			continue
